@@ -12,6 +12,8 @@ Only property theorems live here; lemmas are in `GluonModel.Proofs.Share`.
 import GluonModel.Share
 import GluonModel.Loader
 import GluonModel.Proofs.Share
+import GluonModel.JsonStr
+import GluonModel.Proofs.JsonStr
 import GluonModel.LoadVerify
 import GluonModel.Proofs.LoadVerify
 import GluonModel.ModuleRec
@@ -101,6 +103,29 @@ theorem cycle_through_record_rejected :
     de (ser (.node 0 false 0 [.atom 1, .clo 1 4 [] [.ptr 0 0]])) = .error (.missing 0) := by
   rfl
 
+
+
+/-! #### The text layer under names and string constants -/
+section Text
+open GluonModel.JsonStr
+
+/-- JSON string escaping (as serde_json writes it) followed by unescaping (as it reads it) is the
+    identity on EVERY string: operator names containing `\`, quotes, control characters, non-ASCII
+    — whatever name or constant a compiled module carries comes back unchanged, provided the
+    deserialiser takes the unescaped (owned) string. -/
+theorem json_string_roundtrip (s : List Char) : unescape (escape s) = some s :=
+  JsonStr.Proofs.unescape_escape s
+
+/-- Why a *borrowed* `&str` cannot be demanded (the seeded change C12-symbol-borrowed-str): the
+    written form of the operator name `/\` differs from the name, so no slice of the input is the
+    name. -/
+theorem escaped_name_differs : escape "/\\".toList ≠ "/\\".toList := by decide
+
+example : escape "a\"b\\c\n\x01é".toList = "a\\\"b\\\\c\\n\\u0001é".toList := by decide
+example : unescape "\\u00e9\\/".toList = some "é/".toList := by decide
+example : unescape "\\q".toList = none := by decide
+
+end Text
 
 /-! #### The module record: every field is written and read back
 
